@@ -337,7 +337,7 @@ M("c02-twin-warn-ignore-other", "C02", C, "        self._check_grid()\n        s
 M("c02-twin-warn-ignore-scoped", "C02", C, "        self._check_grid()\n        super().__init__()", "        with warnings.catch_warnings():\n            warnings.simplefilter(\"ignore\")\n            self._check_grid()\n        super().__init__()", expect="pass")
 
 # ------------------------------------------------------------------ C03.draw / C07.fresh (round-3 seed C03-r3b)
-M("c03-draw-cached", ["C03", "C07"], J, "        return self.inverse(self.model.draw_sample(n))", "        if self._sample is not None and len(self._sample) >= n:\n            return self._sample[:n]\n        return self.inverse(self.model.draw_sample(n))",
+M("c03-draw-cached", ["C03", "C07"], J, "        return self.inverse(self.model.draw_sample(n, random_state=random_state))", "        if self._sample is not None and len(self._sample) >= n:\n            return self._sample[:n]\n        return self.inverse(self.model.draw_sample(n, random_state=random_state))",
   rules={"C03": ["C03.draw"], "C07": ["C07.fresh"]}, what="draw_sample serves the remembered sample")
 
 # ------------------------------------------------------------------ C11.writers: who may write a parameter attribute (receiver-aware)
@@ -388,3 +388,8 @@ M("c03-grid-arange", "C03", C, "        n_angles = int(round(360 / deg_step))\n 
 M("c03-grid-count", "C03", C, "        n_angles = int(round(360 / deg_step))", "        n_angles = int(round(180 / deg_step))", rules=["C03.grid"], what="half a circle")
 M("c03-pairs-skip-first", "C03", C, "        a1, a2, r1, r2 = a[:-1], a[1:], r[:-1], r[1:]", "        a1, a2, r1, r2 = a[1:-1], a[2:], r[1:-1], r[2:]", rules=["C03.wrap"], what="original defect D11 (first pair never intersected)")
 M("c03-twin-count-floor", "C03", C, "        n_angles = int(round(360 / deg_step))", "        n_angles = int(np.rint(360 / deg_step))", expect="pass")
+
+# ------------------------------------------------------------------ D12 repaired: the seed must stay threaded
+M("c16-seed-not-passed-iform", "C16", C, "                random_state=self.model.random_state,\n            )\n\n        for i in range(1, n_dim):", "            )\n\n        for i in range(1, n_dim):", rules=["C16.rng"], what="original defect D12 (first coordinate unseeded)")
+M("c16-seed-dropped-marginal", "C16", J, "        sample = self.draw_sample(n, random_state=random_state)", "        sample = self.draw_sample(n)", rules=["C16.rng"], what="original defect D12 (marginal_icdf draws unseeded)")
+M("c16-seed-dropped-tm-draw", "C16", J, "        return self.inverse(self.model.draw_sample(n, random_state=random_state))", "        return self.inverse(self.model.draw_sample(n))", rules=["C16.rng"], what="original defect D12 (TransformedModel.draw_sample)")
